@@ -346,6 +346,9 @@ func gcAndFinalizers() {
 	}
 }
 
+// CollectNow is gcAndFinalizers for the harness (between runs).
+func CollectNow() { gcAndFinalizers() }
+
 // Solo runs fn on the calling goroutine as a single task with a step budget
 // and canonical map order: used for reference results and for single-task
 // engines (C08) that want the logical clock without a scheduler.
